@@ -157,6 +157,26 @@ pub fn run() -> i32 {
             }
         }
         run_box(&mut r, "Q: c=1, context-only and exception-only, W(I4,4)", rules, &w44);
+        // Q7: sets whose alternatives overlap (`{a, V}`, `{t, C}`) with a further item behind them, on words with long segments: the plain letter
+        // takes up one copy of a long segment, the group the whole of it, so which alternative is tried first must not matter
+        {
+            let sets = [It::Set(vec![ipa("a"), grp_v()]), It::Set(vec![grp_v(), ipa("a")]), It::Set(vec![ipa("t"), grp_c()]), It::Set(vec![grp_c(), ipa("t")])];
+            let others = [ipa("t"), ipa("a"), grp_c(), grp_v(), It::SyllB, It::WordB];
+            let mut q7 = vec![];
+            for st in &sets { for ot in &others {
+                for (i, o) in [(ipa("i"), OutIt::Ipa("t", seg("t"))), (grp_c(), OutIt::Mat("[+voice]", vec![(F_VOICE, true)]))] {
+                    let after = (vec![], vec![st.clone(), ot.clone()]);
+                    let before = (vec![ot.clone(), st.clone()], vec![]);
+                    for e in [after, before] {
+                        if matches!(ot, It::WordB) && false { continue; }
+                        q7.push(BasicRule { input: i.clone(), output: o.clone(), context: vec![e.clone()], except: vec![] });
+                        q7.push(BasicRule { input: i.clone(), output: o.clone(), context: vec![], except: vec![e.clone()] });
+                    }
+                }
+            } }
+            let inv: Vec<SegBits> = ["i", "a", "t"].iter().map(|t| seg(t)).collect();
+            run_box(&mut r, "Q7: overlapping set alternatives with an item behind them, W({i,a,t},5)", q7, &word_space(&inv, 5));
+        }
         // Q6: rewrites that make a segment equal to its neighbour. Environment-free rules look at no neighbour, so every segment is rewritten on its
         // own whether or not the results are equal: inventories with pairs one feature apart (t/d/k/ɡ for [+voice], i/e/a for [-hi]) and with
         // the IPA outputs themselves (t, i), on every word of up to 5 segments in every syllabification
